@@ -142,7 +142,7 @@ Proof.
   assert (B : 1 - draw w2_ev < 1/2).
   { unfold draw, w2_ev, EV_MAX. rewrite minus_IZR. assert (P := EV_MAX_pos). unfold EV_MAX in P.
     set (M := IZR (2 ^ 512)) in *.
-    assert (2 < M) by (unfold M; apply IZR_lt; reflexivity).
+    assert (2 < M) by (apply (IZR_lt 2 (2 ^ 512)); reflexivity).
     replace (1 - (M - 1) / M) with (/ M) by (field; lra).
     apply Rmult_lt_reg_r with M; [lra|]. rewrite Rinv_l by lra. lra. }
   lra.
